@@ -20,7 +20,8 @@ SPEC = {
     "level_note": "Trusted: Lean kernel; model HC/Proto/H11.lean + stream models; H11M is a transcription of h11/_state.py with its two tables extracted from the installed library and is *assumed* for the theorems (sampled: our/their state compared after every op); h11's byte-level parser and serialiser are library behaviour (events are inputs, wire bytes parsed by an independent h11 client).  The announcement of close is required only when the cause precedes the head (an application that answers without reading the body cannot have been announced).",
     "rule": "pipelines x request kinds (incl. malformed / aborted) x segmentation x app timing x app-requested close x keep_alive_max; distinct = (pipeline length, request kinds, split class, app timing classes, max, app close); non-trivial = at least two requests, a connection-close cause or a malformed message",
     "trusted": ["h11 0.16 byte parser/serialiser", "asyncio/trio schedulers in the end-to-end layer"],
-    "partial": ["F26 (bytes after a Connection: close request in the same read → 400) if listed in known_findings.json"],
+    "partial": ["F26 (bytes after a Connection: close request in the same read → 400) if listed in known_findings.json",
+                "F08 (known): an application that asks to close and answers without reading a body of >= max_app_queue_size pieces blocks in its own final send (disconnect put on the full queue): the close is never carried out"],
     "assumptions": ["direct drive feeds no read while the reader is parked, as TCPServer does (it awaits protocol.handle)"],
 }
 
@@ -301,8 +302,9 @@ def check_e2e(ctx: Ctx, cases: List[dict]) -> None:
                     if res["closed_at"] is None or (reqs[j]["kind"] == "bad_chunk" and res["closed_at"] >= 1000):
                         ctx.violation("malformed_not_closed", wcase, {"j": j, "closed_at": res["closed_at"]}, msig)
                     # the server owes the 400 itself unless the application had begun its own response (cut short by the close:
-                    # on trio possibly before its first byte was written)
-                    owed = not any(x[1] == "http.response.body" and x[2] == "ok" for x in res["apps"][j]["send"])
+                    # on trio possibly before its first byte was written; hypercorn sends only Closed once h11's writer left SEND_RESPONSE)
+                    # or had already finished (its 500 / its response is what the close cuts)
+                    owed = not any(x[1] == "http.response.body" and x[2] == "ok" for x in res["apps"][j]["send"]) and res["apps"][j]["exit"] not in ("ok", "raise")
                     if len(finals) <= j and owed:
                         ctx.violation("malformed_no_response", wcase, {"j": j, "responses": [x["status"] for x in finals]}, msig)
                     elif len(finals) <= j:
@@ -317,7 +319,14 @@ def check_e2e(ctx: Ctx, cases: List[dict]) -> None:
                     if len(res["apps"]) > k + 1:
                         ctx.violation("reused_after_close_cause", wcase, {"k": k, "apps": len(res["apps"])}, sig)
                     if res["closed_at"] is None or res["closed_at"] >= 1000:
-                        ctx.violation("not_closed_after_close_cause", wcase, {"k": k, "closed_at": res["closed_at"]}, sig)
+                        # F08 (known, C03/C07): the application's own final send closes the stream, whose http.disconnect put waits
+                        # for ever on a queue full of request-body messages nobody reads: `Closed` is never reached
+                        calls = sum(1 for l in labels if l[1] == "appSendCall" and l[2] == k)
+                        rets = sum(1 for l in labels if l[1] == "appSendRet" and l[2] == k)
+                        pieces = len(reqs[k]["chunks"] or []) if reqs[k]["chunks"] is not None else (len(reqs[k]["body"]) + 65535) // 65536
+                        f08 = calls > rets and pieces >= 10 and not any(m[1] == "http.request" for m in res["apps"][k]["recv"])
+                        ctx.violation("not_closed_after_close_cause", wcase, {"k": k, "closed_at": res["closed_at"]},
+                                      {**sig, **({"blocked_put": "disconnect"} if f08 else {})})
 
 
 def run(ctx: Ctx) -> None:
@@ -326,7 +335,7 @@ def run(ctx: Ctx) -> None:
         for r in c["requests"]:
             if r.get("malformed") and not HS.malformed_is_rejected(r):
                 raise RuntimeError(f"corpus request is not malformed for h11: {r}")
-    cases = [gen_case(ctx, i) for i in range(ctx.budget(500, 20000))]
+    cases = [gen_case(ctx, i) for i in range(ctx.budget(500, 12000))]      # (thorough: ~13 min on this box with the 900 e2e sessions below)
     for c in cases:
         for r in c["requests"]:
             if r.get("malformed"):
@@ -334,7 +343,7 @@ def run(ctx: Ctx) -> None:
     ctx.count("corpus.sessions", len(fixed))
     check_direct(ctx, fixed + cases)
     e2e_fixed = [c for c in fixed if c["split"] in ("per_request", "one")]
-    check_e2e(ctx, e2e_fixed[: ctx.budget(24, 200)] + cases[: ctx.budget(60, 1500)])
+    check_e2e(ctx, e2e_fixed[: ctx.budget(24, 200)] + cases[: ctx.budget(60, 900)])
 
 
 def replay(ctx: Ctx, case: dict) -> None:
